@@ -75,7 +75,7 @@ def with_crash(mix, n):
 # with a 130 s limit
 # the enumerated phase is ONE update by one client, so that the image budget is never exhausted: every I/O step of
 # the generated update is a checked crash point (concurrent crash scenarios are the business of the 'faults' batches)
-ENUM = dict(phases=1, enum=1, enum_clients=1, enum_ops=1, ops_per_client=2, content='pool', between=1, max_images=72, real_kill=(1, 4))
+ENUM = dict(phases=1, enum=1, enum_clients=1, enum_ops=1, ops_per_client=2, content='pool', between=1, max_images=72, real_kill=(1, 6))
 
 PROPS = {
     'C07': dict(
